@@ -221,7 +221,8 @@ HARNESSES = {
                                       [{"nops": 2, "nres": 2, "k": 8, "preempt": [False]}, {"nops": 3, "nres": 3, "k": 6, "preempt": [False]},
                                        {"nops": 3, "nres": 2, "k": 6, "preempt": [True]}, {"nops": 2, "nres": 3, "k": 7, "preempt": [True, False]},
                                        {"nops": 3, "nres": 3, "k": 6, "preempt": [False, True, True]},
-                                       {"nops": 3, "nres": 3, "k": 4, "preempt": [False], "own": True}]),
+                                       {"nops": 3, "nres": 3, "k": 4, "preempt": [False], "own": True},
+                                       {"nops": 3, "nres": 3, "k": 4, "preempt": [True, False, True], "own": True}]),
                 "clauses": ["C15.pre", "C15.a-missed", "C15.a-phantom", "C15.b-live", "C15.b-edges", "C15.b-members", "C15.c", "C15.c-lowest", "C15.c-owns", "C15.c-gone"]},
 }
 
@@ -233,7 +234,7 @@ META = {
     },
     "files": ["operon_ai/coordination/controller.py", "operon_ai/coordination/types.py", "operon_ai/coordination/watchdog.py"],
     "bounds": {"quick": "cycle search on all 65 661 ordered wait-for graphs over 3 and 4 operations; histories: (2 ops,3 res,k=6), (3,3,k=5) without preemption; (3,2,k=5) preemptable; (2,3,k=5) mixed; (3,3) from the contended pre-state (o_i owns r_i) k=3 free steps; priorities 0..3 symbolic",
-               "thorough": "(ops,resources,depth): (2,2,k=8), (3,3,k=6), (3,2,k=6 preemptable), (2,3,k=7 mixed), (3,3,k=6 mixed), (3,3) contended pre-state + k=4; (2,3,k=8) and (3,2,k=7 preemptable) exceed 5 minutes each on 16 cores since operation ids are no longer symmetry-reduced: outside"},
+               "thorough": "(ops,resources,depth): (2,2,k=8), (3,3,k=6), (3,2,k=6 preemptable), (2,3,k=7 mixed), (3,3,k=6 mixed), (3,3) contended pre-state + k=4 without and with preemptable locks; (2,3,k=8) and (3,2,k=7 preemptable) exceed 5 minutes each on 16 cores since operation ids are no longer symmetry-reduced: outside"},
     "outside": ["histories longer than k", "more than 3 operations/resources", "timeouts (C14 watchdog harness)", "priority inheritance"],
     "float_argument": "none",
     "assumptions": ["all operations are started up front; ended operations are not restarted"],
